@@ -119,13 +119,13 @@ Proof. exact c05_example_noperm. Qed.
 Example fixed_rule_rejects_fredkin_pair : commutation_rules fredkin_b fredkin_a = false.
 Proof. exact commutation_rules_fixed_fredkin. Qed.
 
-(* ---- H1 / H2 HOLD for the library's real gate matrices (Gen.Gates.dispatch, regenerated from operations/gates.py and
+(* ---- H1 / H2 HOLD for the library's real gate matrices (Gen.Gates dispatch + class_mat, regenerated from operations/gates.py and
         gateclass.py on every run), embedded by Found.Base.app on the qubits controls ++ targets, in every phase ring R
         and for all parameter values (env maps the reduced argument list of a gate to arbitrary parameter atoms), with the
         library's commutation_rules (fixes/C05-commutation-rules.diff applied): so sched_sem is a statement about actual
         unitaries acting on every register.  An instruction that is not well formed for its name (unknown name, wrong
         number of controls / targets, repeated qubit, a gate with >= 2 parameters carrying another number of arguments)
-        has no unitary and acts as the identity.  Proofs/SchedReal.v: 63 local symbolic commutation identities with
+        has no unitary and acts as the identity.  Proofs/SchedReal.v: 70 local symbolic commutation identities with
         independent parameter values for the two gates (all_ok, vm_compute), lifted by Found/Shift.v. ---- *)
 From QV Require Import Found.Circ Found.Shift Gen.Gates Proofs.C09 Proofs.SchedReal.
 
@@ -135,12 +135,21 @@ Theorem act_real_wf : forall (R : PhaseRing) (env : list Q -> atoms R) g m, wf_i
 Proof. intros R env g m H st. unfold act_real. rewrite H. reflexivity. Qed.
 
 Theorem wf_instr_iff : forall g m, wf_instr g = Some m <->
-  exists nc nt np, SchedReal.arity (iname g) = Some (nc, nt, np) /\ assoc (iname g) dispatch = Some m /\
+  exists nc nt np, SchedReal.arity (iname g) = Some (nc, nt, np) /\ gate_mexp (iname g) = Some m /\
     length (icontrols g) = nc /\ length (itargets g) = nt /\ NoDup (icontrols g ++ itargets g) /\
-    (np <= 1 \/ length (iargs g) = np).
+    ((np <= 1)%nat \/ length (iargs g) = np).
 Proof. exact SchedReal.wf_iff. Qed.
 
-Theorem arity_covers_dispatch : forall n m, In (n, m) dispatch -> exists ar, SchedReal.arity n = Some ar.
+(* gate_mexp n = the matrix of Gate(n) (dispatch), or of the class registered for n (H, iSWAP, SWAPALPHA, MS, CX, RZX) *)
+Theorem gate_mexp_def : forall n, gate_mexp n =
+  match assoc n dispatch with
+  | Some m => Some m
+  | None => match assoc n class_map with Some c => assoc c class_mat | None => None end
+  end.
+Proof. reflexivity. Qed.
+
+Theorem arity_covers_names : forall n, (exists m, In (n, m) dispatch) \/ (exists c, In (n, c) class_map) ->
+  exists ar, SchedReal.arity n = Some ar.
 Proof. exact SchedReal.arity_cover. Qed.
 
 Theorem real_H1 : forall (R : PhaseRing) (env : list Q -> atoms R) a b, disjoint_qubits a b ->
@@ -168,13 +177,32 @@ Qed.
 Print Assumptions sched_sem_unitary.
 
 (* non-vacuity: library gates are well formed (act_real is their matrix, not the identity fallback) *)
+Local Open Scope nat_scope.
 Example wf_examples :
-  wf_instr (mkInstr "CNOT" [1] [0] [] 1) = Some fn_cnot /\
-  wf_instr (mkInstr "RX" [1] [] [1 # 2] 1) = Some (msubst [Var 0] fn_rx) /\
-  wf_instr (mkInstr "TOFFOLI" [2] [0; 1] [] 1) = Some fn_toffoli /\
-  wf_instr (mkInstr "FREDKIN" [1; 2] [0] [] 1) = Some fn_fredkin /\
-  wf_instr (mkInstr "R" [0] [] [1 # 2; 1 # 4] 1) = Some (msubst [Var 0; Var 1] fn_qrot) /\
-  wf_instr (mkInstr "R" [0] [] [1 # 2] 1) = None /\ wf_instr (mkInstr "CNOT" [0] [0] [] 1) = None.
+  wf_instr (mkInstr "CNOT" [1] [0] [] 1%Q) = Some fn_cnot /\
+  wf_instr (mkInstr "RX" [1] [] [(1 # 2)%Q] 1%Q) = Some (msubst [Var 0] fn_rx) /\
+  wf_instr (mkInstr "TOFFOLI" [2] [0; 1] [] 1%Q) = Some fn_toffoli /\
+  wf_instr (mkInstr "FREDKIN" [1; 2] [0] [] 1%Q) = Some fn_fredkin /\
+  wf_instr (mkInstr "R" [0] [] [(1 # 2)%Q; (1 # 4)%Q] 1%Q) = Some (msubst [Var 0; Var 1] fn_qrot) /\
+  wf_instr (mkInstr "MS" [0; 1] [] [(1 # 2)%Q; (1 # 4)%Q] 1%Q) = Some (msubst [Var 0; Var 1] fn_molmer_sorensen) /\
+  wf_instr (mkInstr "R" [0] [] [(1 # 2)%Q] 1%Q) = None /\ wf_instr (mkInstr "CNOT" [0] [0] [] 1%Q) = None.
 Proof. repeat split. Qed.
 Example c05_example_wf : forallb (fun g => match wf_instr g with Some _ => true | None => false end) c05_example = true.
 Proof. reflexivity. Qed.
+
+(* Instruction.__init__ SORTS the target and the control list of its gate; the model's instr carries the sorted lists.
+   This does not change the unitary: every two-target / two-control matrix of dispatch is invariant under the exchange *)
+Theorem act_real_target_order : forall (R : PhaseRing) (env : list Q -> atoms R) n c t1 t2 args d st, n <> "RZX"%string ->
+  act_real R env (mkInstr n [t1; t2] c args d) st = act_real R env (mkInstr n [t2; t1] c args d) st.
+Proof. exact SchedReal.act_real_target_order. Qed.
+Theorem act_real_control_order : forall (R : PhaseRing) (env : list Q -> atoms R) n t c1 c2 args d st,
+  act_real R env (mkInstr n t [c1; c2] args d) st = act_real R env (mkInstr n t [c2; c1] args d) st.
+Proof. exact SchedReal.act_real_control_order. Qed.
+Print Assumptions act_real_target_order.
+
+(* the guards of the fixed rule are needed: with independent parameter values two R gates on one qubit, and two FREDKIN
+   gates with the same control and overlapping targets, fail the symbolic commutation test *)
+Example guards_needed :
+  comm_check 1 (msubst [Var 0; Var 1] fn_qrot) [0] (msubst [Var 0; Var 1] fn_qrot) [0] = false /\
+  comm_check 4 fn_fredkin [0; 1; 2] fn_fredkin [0; 2; 3] = false.
+Proof. split; vm_compute; reflexivity. Qed.
